@@ -85,7 +85,8 @@ DROP_PATHS = ["drop.a", "drop.b.c", "drop.b.d[1]", "drop.items", "drop.items.fir
 SHORTHAND_PATHS = ["items.0", "nested.1.0", "objs.0.title", "nested.1.1.0"]
 LOOP_PATHS = ["forloop.index", "forloop.index0", "forloop.rindex", "forloop.first", "forloop.last", "forloop.length",
               "forloop.parentloop.index", "forloop.name"]
-TABLE_PATHS = ["tablerowloop.col", "tablerowloop.row", "tablerowloop.col_first", "tablerowloop.index"]
+TABLE_PATHS = ["tablerowloop.col", "tablerowloop.row", "tablerowloop.col_first", "tablerowloop.index",
+               "tablerowloop.col_last", "tablerowloop.last", "tablerowloop.col0", "tablerowloop.length"]
 
 # name -> list of argument kinds ("?" prefix = optional)
 FILTERS = {
@@ -121,12 +122,16 @@ FILTER_INPUT_HINT = {  # which kind of left operand makes the filter do somethin
 }
 
 
+SIM_FILTERS = {"slow": [], "slow_append": ["s"]}
+
+
 class ExprGen:
-    def __init__(self, rng, flags, extra, drops=False):
+    def __init__(self, rng, flags, extra, drops=False, simfilters=False):
         self.rng = rng
         self.flags = flags
         self.extra = extra
         self.drops = drops
+        self.simfilters = simfilters
         self.scope = []        # extra variable names in scope (loop vars, assigns, macro params)
         self.in_for = 0
         self.in_table = 0
@@ -188,6 +193,9 @@ class ExprGen:
         if self.extra:
             table.update(EXTRA_FILTERS)
         names = sorted(table)
+        if self.simfilters and r.chance(0.3):
+            table = dict(table, **SIM_FILTERS)
+            names = sorted(SIM_FILTERS)
         name = r.choice(names)
         args = []
         for k in table[name]:
@@ -263,9 +271,9 @@ TEXTS = ["", " ", "\n", "text ", "a b", "<p>", "</p>\n", "  x  ", "{ % }", "é",
 
 class TreeGen:
     def __init__(self, rng, flags, extra, partials=(), parents=(), drops=False, template_comments=False,
-                 max_depth=3, budget=22, stateful_bias=1.0, allow_loaders=True):
+                 max_depth=3, budget=22, stateful_bias=1.0, allow_loaders=True, simfilters=False):
         self.rng = rng
-        self.ex = ExprGen(rng, flags, extra, drops)
+        self.ex = ExprGen(rng, flags, extra, drops, simfilters)
         self.flags = flags
         self.extra = extra
         self.partials = list(partials)
@@ -307,8 +315,9 @@ class TreeGen:
             ("if", 5 if deep else 0), ("unless", 2 if deep else 0), ("case", 2 if deep else 0),
             ("for", 5 if deep else 0), ("tablerow", 2 if deep else 0),
             ("cycle", 2 * sb if self.ex.in_for else 0.5 * sb), ("increment", 1.5 * sb), ("decrement", 1 * sb),
-            ("ifchanged", 2 * sb if self.ex.in_for and deep else 0), ("break", 1.5 if self.ex.in_for else 0),
-            ("continue", 1.5 if self.ex.in_for else 0), ("comment", 1), ("raw", 1), ("inline", 1), ("doc", 0.3),
+            ("ifchanged", 2 * sb if self.ex.in_for and deep else 0),
+            ("break", 1.5 if self.ex.in_for or self.ex.in_table else 0),
+            ("continue", 1.5 if self.ex.in_for or self.ex.in_table else 0), ("comment", 1), ("raw", 1), ("inline", 1), ("doc", 0.3),
             ("tcomment", 1 if self.template_comments else 0), ("liquid", 2 if deep else 0),
             ("include", 3 if self.partials and self.allow_loaders and not self.no_include else 0),
             ("render", 3 if self.partials and self.allow_loaders else 0),
@@ -348,11 +357,25 @@ class TreeGen:
     def n_decrement(self, depth):
         return ["tag", "decrement", self.rng.choice(["c", "c2", "x"]), ""]
 
+    def _loop_cond(self):
+        r = self.rng
+        if self.ex.in_table and r.chance(0.6):
+            return r.choice(["tablerowloop.col_last", "tablerowloop.col == 2", "tablerowloop.index == 2",
+                             "tablerowloop.col_first", "tablerowloop.index0 >= 1", "cell == 2"])
+        if self.ex.in_for and r.chance(0.5):
+            return r.choice(["forloop.index == 2", "forloop.first", "forloop.last", "forloop.index0 >= 1", "it == 2",
+                             "forloop.rindex == 1"])
+        return self.ex.condition(1)
+
     def n_break(self, depth):
-        return ["block", "if", self.ex.condition(1), [["tag", "break", "", ""]], [], "endif", ""]
+        if self.rng.chance(0.25):
+            return ["tag", "break", "", ""]
+        return ["block", "if", self._loop_cond(), [["tag", "break", "", ""]], [], "endif", ""]
 
     def n_continue(self, depth):
-        return ["block", "if", self.ex.condition(1), [["tag", "continue", "", ""]], [], "endif", ""]
+        if self.rng.chance(0.2):
+            return ["tag", "continue", "", ""]
+        return ["block", "if", self._loop_cond(), [["tag", "continue", "", ""]], [], "endif", ""]
 
     def n_comment(self, depth):
         return ["block", "comment", "", [["text", self.rng.choice(["c", "{{ x }}", "{% if %}"])]], [], "endcomment", ""]
